@@ -195,6 +195,37 @@ def outTDec (ty : Ty) (bs : Bytes) : String :=
   | .ok v => "ok " ++ (toG ty v).render
   | .error _ => "err"
 
+/-! ### Stream machine outcomes -/
+
+def errName : Aqv.RlpStream.SErr → String
+  | .eol => "eol" | .eof => "eof" | .unexpectedEOF => "unexpectedEOF" | .expectedString => "expectedString"
+  | .expectedList => "expectedList" | .canonInt => "canonInt" | .canonSize => "canonSize"
+  | .elemTooLarge => "elemTooLarge" | .valueTooLarge => "valueTooLarge" | .moreThanOneValue => "moreThanOneValue"
+  | .notInList => "notInList" | .notAtEOL => "notAtEOL" | .uintOverflow => "uintOverflow" | .badBool => "badBool"
+  | .fuel => "fuel"
+
+/-- `<ok|err> S=<tok> B=<tok>`, tok = `ok:<item>` | `err:<kind>`; for the Stream entry point a failing second phase (a second
+    value, or an error other than io.EOF) is `err:more`. -/
+def sdecOut (bs : Bytes) : String :=
+  let f := Aqv.RlpStream.fuelFor bs.length
+  let tokS :=
+    match Aqv.RlpStream.decodeInterface f (Aqv.RlpStream.newStream bs bs.length) with
+    | (.error e, _) => "err:" ++ errName e
+    | (.ok it, s) =>
+      match (Aqv.RlpStream.decodeInterface f s).1 with
+      | .error .eof => "ok:" ++ it.render
+      | _ => "err:more"
+  -- the function the theorems are about must tell the same accept/reject story
+  let tokS :=
+    match (Aqv.RlpStream.decodeStream bs).1 with
+    | .ok it => if tokS == "ok:" ++ it.render then tokS else "model-internal-mismatch"
+    | .error _ => if tokS.startsWith "err:" then tokS else "model-internal-mismatch"
+  let tokB :=
+    match (Aqv.RlpStream.decodeBytes bs).1 with
+    | .ok it => "ok:" ++ it.render
+    | .error e => "err:" ++ errName e
+  (if tokS.startsWith "err" then "err" else "ok") ++ " S=" ++ tokS ++ " B=" ++ tokB
+
 def handle (l : String) : String :=
   let (inp, go) := splitCase l
   match fields inp with
@@ -220,25 +251,45 @@ def handle (l : String) : String :=
       let m := "ok " ++ hexOrDash (enc it)
       verdict m go false "encoding-differs-from-spec"
   | ["sdec", hex] =>
-    -- the Go-shaped Stream machine: NewStream(r, len) + Decode + second Decode = EOF, and DecodeBytes
+    -- the Go-shaped Stream machine, both entry points, WITH the error kind:
+    --   S = NewStream(r, len) + Decode + second Decode must be io.EOF;   B = DecodeBytes
     match bytesOfHex hex with
     | none => "bad-op\tspec-ok"
     | some bs =>
-      let out (r : Except Aqv.RlpStream.SErr Item) : String :=
-        match r with
-        | .ok it => "ok " ++ it.render
-        | .error _ => "err"
-      let m1 := out (Aqv.RlpStream.decodeStream bs).1
-      let m2 := out (Aqv.RlpStream.decodeBytes bs).1
-      let m := if m1 == m2 then m1 else "stream-machine-entry-points-differ"
-      let specOk :=
-        if go.startsWith "ok " then
-          match parseItemStr (strDrop go 3) with
+      let m := sdecOut bs
+      let tokOk (t : String) : Bool :=
+        if t.startsWith "ok:" then
+          match parseItemStr (strDrop t 3) with
           | some it => enc it == bs
           | none => false
-        else if go == "err" then (match dec bs with | .ok _ => false | .error _ => true)
+        else if t.startsWith "err:" then (match dec bs with | .ok _ => false | .error _ => true)
         else false
+      let specOk :=
+        match fields go with
+        | [_, a, b] => a.startsWith "S=" && b.startsWith "B=" && tokOk (strDrop a 2) && tokOk (strDrop b 2)
+        | _ => false
       verdict m go specOk "stream-decode-accepts-noncanonical-or-rejects-canonical"
+  | ["sprim", op, hex] =>
+    -- one primitive of the Stream machine on a fresh NewStream(r, len): Uint / Bool / Bytes / Raw / Kind
+    match bytesOfHex hex with
+    | none => "bad-op\tspec-ok"
+    | some bs =>
+      let s0 := Aqv.RlpStream.newStream bs bs.length
+      let err (e : Aqv.RlpStream.SErr) : String := "err " ++ errName e
+      let m :=
+        match op with
+        | "uint" => (match (Aqv.RlpStream.uint 8 s0).1 with | .ok n => "ok " ++ toString n | .error e => err e)
+        | "bool" => (match (Aqv.RlpStream.bool s0).1 with | .ok b => "ok " ++ toString b | .error e => err e)
+        | "bytes" => (match (Aqv.RlpStream.bytes s0).1 with | .ok b => "ok " ++ hexOrDash b | .error e => err e)
+        | "raw" => (match (Aqv.RlpStream.raw s0).1 with | .ok b => "ok " ++ hexOrDash b | .error e => err e)
+        | "kind" =>
+          (match (Aqv.RlpStream.kindOf s0).1 with
+           | .ok (k, n) =>
+             "ok " ++ (match k with | .byte => "Byte" | .string => "String" | .list => "List") ++ " " ++ toString n
+           | .error e => err e)
+        | _ => "bad-op"
+      -- both reject with different error kinds: the correspondence is broken, the property is not
+      verdict m go (go.startsWith "err" && m.startsWith "err") "stream-primitive-differs"
   | ["tdec", td, hex] =>
     match parseTyStr td, bytesOfHex hex with
     | some ty, some bs =>
